@@ -179,6 +179,42 @@ fn observe<N: Key, Ty: EdgeType, S: BuildHasher>(g: &GraphMap<N, i32, Ty, S>, m:
             }
         }
     }
+    // iterator protocol of every GraphMap iterator (size_hint, count, last, nth, both ends, len);
+    // on a state-determined quarter of the observations (it costs several times the rest)
+    if (m.nodes.len() + 3 * m.edges.len() + at.len()) % 4 == 0 {
+        use crate::util::{iter_laws, iter_laws_double_ended, iter_laws_exact};
+        let cap = 4 * (m.nodes.len() + m.edges.len()) + 8;
+        macro_rules! laws {
+            ($name:expr, $r:expr) => {
+                match $r {
+                    Ok(v) => v,
+                    Err(e) => return Err(Failure { sig: format!("C03/iterator-protocol/{}", $name), msg: format!("{at}: {}: {e}", $name) }),
+                }
+            };
+        }
+        let r = laws!("nodes", iter_laws(|| g.nodes(), cap));
+        laws!("nodes", iter_laws_double_ended(|| g.nodes(), &r));
+        laws!("nodes", iter_laws_exact(|| g.nodes(), r.len()));
+        let r = laws!("all_edges", iter_laws(|| g.all_edges().map(|(a, b, w)| (a, b, *w)), cap));
+        ck!(r == all, "iterator-protocol/all_edges", "{at}: all_edges() differs between two iterations");
+        laws!("all_edges", iter_laws(|| g.all_edges(), cap));
+        laws!("all_edges", iter_laws_double_ended(|| g.all_edges(), &g.all_edges().collect::<Vec<_>>()));
+        laws!("node_identifiers", iter_laws(|| g.node_identifiers(), cap));
+        laws!("node_references", iter_laws(|| petgraph::visit::IntoNodeReferences::node_references(g), cap));
+        laws!("edge_references", iter_laws(|| g.edge_references().map(|e| (e.source(), e.target(), *e.weight())), cap));
+        for i in 0..POOL {
+            let a = N::of(i);
+            if !m.nodes.contains(&a) {
+                continue;
+            }
+            laws!("neighbors", iter_laws(|| g.neighbors(a), cap));
+            laws!("edges", iter_laws(|| g.edges(a), cap));
+            for dir in [Outgoing, Incoming] {
+                laws!("neighbors_directed", iter_laws(|| g.neighbors_directed(a, dir), cap));
+                laws!("edges_directed", iter_laws(|| g.edges_directed(a, dir), cap));
+            }
+        }
+    }
     // compact numbering
     let ids: Vec<N> = g.node_identifiers().collect();
     ck!(g.node_bound() == ids.len(), "node_bound", "{at}: node_bound() = {} with {} nodes", g.node_bound(), ids.len());
